@@ -58,7 +58,7 @@ namespace Whn
 theorem createClosing_pushedOf (r : Option Nat) (pool : Nat) (s : Whn α) (j) :
     (createClosing r pool s).b.pushedOf j = s.b.pushedOf j := by
   unfold createClosing; simp only []; split
-  · simp
+  · simp [onEnd]
   · split <;> split <;> (try split) <;> simp
 
 theorem delta_step (r : Option Nat) (pool : Nat) (s : Whn α) (t : Nat) (e : Ev α) (id : Nat) :
